@@ -157,6 +157,9 @@ static void ls_dir(const char* root, const char* rel, int depth, int* first) {
 static U32 putpath(U32 at, const char* hex) { return (U32)unhex(hex, mem->data + at); }
 /* the first path of a call lies at PATH1 - or, after "pathsatend 1", so that its last byte is the last byte of linear memory */
 static int paths_at_end; static U32 p1;
+/* where the segments of a scatter/gather vector lie ("iovlayout N"): 0 each in a slot of its own (S bytes apart), 1 one directly behind the
+ * other (an empty segment then points at the end of its predecessor), 2 slots, but an empty segment points at the START of its successor */
+static int iov_layout;
 static U32 putpath1(const char* hex) { static U8 tmp[70000]; U32 len = (U32)unhex(hex, tmp); p1 = paths_at_end ? (U32)MEMSIZE - len : PATH1; memcpy(mem->data + p1, tmp, len); return len; }
 
 int main(int argc, char** argv) {
@@ -206,6 +209,7 @@ int main(int argc, char** argv) {
         strncpy(cmd, tok[0], 31); cmd[31] = 0;
         if (nt > 1) abi = tok[1][0];
         if (!strcmp(cmd, "pathsatend")) { paths_at_end = atoi(tok[1]); continue; }
+        if (!strcmp(cmd, "iovlayout")) { iov_layout = atoi(tok[1]); continue; }
 #ifdef VERIF_FAULTS
         if (!strcmp(cmd, "inject")) { strncpy(pending_family, tok[1], 31); pending_errno = atoi(tok[2]); continue; }
 #endif
@@ -221,13 +225,19 @@ int main(int argc, char** argv) {
         } else if (!strcmp(cmd, "write") || !strcmp(cmd, "pwrite")) {
             /* up to 16 segments: 256 bytes apart; more (up to 64): 16 bytes apart */
             int pw = cmd[0] == 'p', base = pw ? 4 : 3, n = nt - base; U32 S = n > 16 ? 0x10 : 0x100;
-            for (k = 0; k < n; k++) { U32 l = (U32)unhex(tok[base + k], mem->data + WBUF + S * k); i32_store(mem, IOV + 8 * k, WBUF + S * k); i32_store(mem, IOV + 8 * k + 4, l); }
+            { static U8 tmpseg[70000]; U32 lens[80], at = WBUF;
+              for (k = 0; k < n; k++) lens[k] = (U32)unhex(tok[base + k], tmpseg);
+              for (k = 0; k < n; k++) { U32 l, ptr = iov_layout == 1 ? at : (iov_layout == 2 && lens[k] == 0 && k + 1 < n) ? WBUF + S * (k + 1) : WBUF + S * k;
+                  l = (U32)unhex(tok[base + k], mem->data + ptr); at += l; i32_store(mem, IOV + 8 * k, ptr); i32_store(mem, IOV + 8 * k + 4, l); } }
             memcpy(before, mem->data, MEMSIZE);
             err = pw ? CALL(abi, fd_pwrite, (NULL, (U32)strtoul(tok[2], 0, 10), IOV, (U32)n, strtoull(tok[3], 0, 10), R1))
                      : CALL(abi, fd_write, (NULL, (U32)strtoul(tok[2], 0, 10), IOV, (U32)n, R1));
         } else if (!strcmp(cmd, "read") || !strcmp(cmd, "pread")) {
             int pr = cmd[0] == 'p', base = pr ? 4 : 3, n = nt - base; U32 S = n > 16 ? 0x10 : 0x100;
-            for (k = 0; k < n; k++) { i32_store(mem, IOV + 8 * k, RBUF + S * k); i32_store(mem, IOV + 8 * k + 4, (U32)strtoul(tok[base + k], 0, 10)); memset(mem->data + RBUF + S * k, 0xEE, S); }
+            { U32 at = RBUF;
+              for (k = 0; k < n; k++) memset(mem->data + RBUF + S * k, 0xEE, S);
+              for (k = 0; k < n; k++) { U32 l = (U32)strtoul(tok[base + k], 0, 10), ptr = iov_layout == 1 ? at : (iov_layout == 2 && l == 0 && k + 1 < n) ? RBUF + S * (k + 1) : RBUF + S * k;
+                  at += l; i32_store(mem, IOV + 8 * k, ptr); i32_store(mem, IOV + 8 * k + 4, l); } }
             memcpy(before, mem->data, MEMSIZE);
             err = pr ? CALL(abi, fd_pread, (NULL, (U32)strtoul(tok[2], 0, 10), IOV, (U32)n, strtoull(tok[3], 0, 10), R1))
                      : CALL(abi, fd_read, (NULL, (U32)strtoul(tok[2], 0, 10), IOV, (U32)n, R1));
